@@ -2,6 +2,8 @@ import json, os, re, subprocess, sys, threading, time, queue, hashlib, glob
 
 VERIF = os.path.dirname(os.path.dirname(os.path.abspath(__file__)))
 NNGSIM = os.path.join(VERIF, "build", "nngsim")
+# the tree under test; overridden only by bin/sens2 (sensitivity runs against a scratch worktree)
+REPO = os.environ.get("VERIF_REPO", "/repo").rstrip("/")
 NWORKERS = int(os.environ.get("VERIF_WORKERS", "16"))
 
 sys.path.insert(0, os.path.join(VERIF, "lib"))
@@ -35,7 +37,7 @@ def mix(*parts):
 
 def build():
     t0 = time.time()
-    p = subprocess.run(["make", "-C", VERIF, "-j16", "all"], stdout=subprocess.PIPE, stderr=subprocess.STDOUT, text=True)
+    p = subprocess.run(["make", "-C", VERIF, "-j16", "all", "REPO=" + REPO], stdout=subprocess.PIPE, stderr=subprocess.STDOUT, text=True)
     if p.returncode != 0:
         sys.stdout.write(p.stdout[-4000:])
         return False, time.time() - t0
@@ -139,11 +141,11 @@ def parse_sanitizer(stderr):
     # only the stack of the faulting access (up to the first blank line / "freed by")
     first = re.split(r"\n\s*\n|freed by|previously allocated|is located", stderr, 1)[0]
     frames = re.findall(r"#\d+ 0x[0-9a-f]+ in (\S+) (/\S+?):(\d+)", first)
-    frames = [f for f in frames if f[1].startswith("/repo/")]
+    frames = [f for f in frames if f[1].startswith(REPO + "/")]
     top = [f"{fn}" for fn, path, ln in frames[:8]]
     site = ""
     if kind == "ubsan":
-        m2 = re.search(r"(/repo/\S+?):(\d+):\d+: runtime error: ([^\n]+)", stderr)
+        m2 = re.search(r"(" + re.escape(REPO) + r"/\S+?):(\d+):\d+: runtime error: ([^\n]+)", stderr)
         if m2:
             site = f"{os.path.basename(m2.group(1))}: {m2.group(3)}"
     return kind, top, site
